@@ -7,6 +7,7 @@ mod gen_families;
 mod cmd_backend;
 mod cmd_det;
 mod cmd_robust;
+mod gen_idswap;
 mod cmd_native;
 mod native;
 mod cmd_heapops;
